@@ -22,6 +22,9 @@ type seed struct {
 }
 
 var seeds = []seed{
+	{"CheckedAdd uses the plain point kernel", "F8.point", "roaring.go", "\t\tC = C.iaddReturnMinimized(lowbits(x))\n\t\trb.highlowcontainer.setContainerAtIndex(i, C)\n\t\treturn C.getCardinality() > oldcard\n", "\t\tadded := C.iadd(lowbits(x))\n\t\t_ = oldcard\n\t\treturn added\n", "CheckedAdd|iadd"},
+	{"bitmapContainer.andNotArray tests the receiver cardinality instead of the result", "F8.bitmap", "bitmapcontainer.go", "\tif answer.cardinality <= arrayDefaultMaxSize {\n\t\treturn answer.toArrayContainer()\n\t}\n\treturn answer\n}\n\nfunc (bc *bitmapContainer) andNotBitmap", "\tif bc.cardinality <= arrayDefaultMaxSize {\n\t\treturn answer.toArrayContainer()\n\t}\n\treturn answer\n}\n\nfunc (bc *bitmapContainer) andNotBitmap", "andNotArray|return-bitmap"},
+	{"ParHeapOr starts the appender after feeding its workers", "P6", "parallel.go", "\tgo appenderRoutine(bitmapChan, resultChan, expectedKeysChan)\n\n\tfor i := 0; i < parallelism; i++ {\n\t\tgo orFunc()\n\t}\n\n\tidx := 0\n\tfor h.Len() > 0 {\n\t\tck := h.Next(pool.Get().([]container))\n\t\tif len(ck.containers) == 1 {\n\t\t\tresultChan <- keyedContainer{\n\t\t\t\tck.key,\n\t\t\t\tck.containers[0].clone(),\n\t\t\t\tidx,\n\t\t\t}\n\t\t\tpool.Put(ck.containers[:0])\n\t\t} else {\n\t\t\tck.idx = idx\n\t\t\tinputChan <- ck\n\t\t}\n\t\tidx++\n\t}\n\texpectedKeysChan <- idx\n", "\tfor i := 0; i < parallelism; i++ {\n\t\tgo orFunc()\n\t}\n\n\tidx := 0\n\tfor h.Len() > 0 {\n\t\tck := h.Next(pool.Get().([]container))\n\t\tif len(ck.containers) == 1 {\n\t\t\tresultChan <- keyedContainer{\n\t\t\t\tck.key,\n\t\t\t\tck.containers[0].clone(),\n\t\t\t\tidx,\n\t\t\t}\n\t\t\tpool.Put(ck.containers[:0])\n\t\t} else {\n\t\t\tck.idx = idx\n\t\t\tinputChan <- ck\n\t\t}\n\t\tidx++\n\t}\n\tgo appenderRoutine(bitmapChan, resultChan, expectedKeysChan)\n\texpectedKeysChan <- idx\n", "ParHeapOr|feeding loop"},
 	{"SetCopyOnWrite(false) clears the flags of containers that are still shared", "A4.clear", "roaring.go", "func (rb *Bitmap) SetCopyOnWrite(val bool) {\n", "func (rb *Bitmap) SetCopyOnWrite(val bool) {\n\tif !val {\n\t\tfor i := range rb.highlowcontainer.needCopyOnWrite {\n\t\t\trb.highlowcontainer.needCopyOnWrite[i] = false\n\t\t}\n\t}\n", "SetCopyOnWrite|flag cleared"},
 	{"a 64-bit in-place operation removes a bucket without shortening its cached length", "LEN1", "roaring64/roaring64.go", "\t\t\t\t\trb.highlowcontainer.removeAtIndex(pos1)\n\t\t\t\t\tlength1--\n", "\t\t\t\t\trb.highlowcontainer.removeAtIndex(pos1)\n", "removeAtIndex"},
 	{"roaring64 FromUnsafeBytes files a bucket at -pos-1 whatever the search said", "F5.neg", "roaring64/roaring64.go", "\t\trb.highlowcontainer.appendContainer(key, bucket, false)\n", "\t\tpos := rb.highlowcontainer.getIndex(key)\n\t\trb.highlowcontainer.insertNewKeyValueAt(-pos-1, key, bucket)\n", "insertion at -i-1"},
